@@ -333,6 +333,8 @@ class SnmpSession(object):
         """Refresh implementation, may raise BlockingIOError on timeout."""
         if self._deferred_user:
             # First check runs engine id discovery
+            if self._policer:
+                self._policer.wait_sync()
             self._sock.refresh()
             # Set and localize actual keys
             self._sock.set_keys(
@@ -348,6 +350,8 @@ class SnmpSession(object):
             self._deferred_user = None
 
         # Refresh engine boots and time
+        if self._policer:
+            self._policer.wait_sync()
         self._sock.refresh()
 
     def get_engine_id(self: "SnmpSession") -> bytes:
